@@ -213,6 +213,7 @@ func (c *c06) Plan(seed uint64, tier string, worker, workers, idx int) *Plan {
 			if (op.Kind == "detect" || op.Kind == "lookup" || op.Kind == "reader") && r.Chance(1, 4) {
 				slot = slot%p.Slots + 1
 				op.Slot = slot
+				op.Early = op.Kind != "lookup" && r.Chance(1, 2)
 			}
 			ops = append(ops, op)
 		}
